@@ -454,6 +454,8 @@ impl<'env> Context<'env> {
                 "recursion limit exceeded",
             ));
         }
+        #[cfg(feature = "verif_hooks")]
+        crate::verif_hooks::recursion::note_depth(self.depth());
         Ok(())
     }
 }
